@@ -1,6 +1,7 @@
 import Driver.Loop
 import PytypeModel.Pytd.EqHash
 import PytypeModel.Generated.PytdSchema
+import PytypeModel.Pytd.UndoAliases
 open PytypeModel.Pytd PytypeModel.Pytd.Generated
 
 /-! protocol (σ = the regenerated schema):
@@ -96,6 +97,27 @@ def classIds (keys : Array String) : Array Nat := Id.run do
     | none => out := out.push seen.size; seen := seen.push k
   return out
 
+/-! `undo <k> <hex alias name> <hex module name> ×k <hex late-type name>` → `<hex of the rewritten name> <noChain bit>`
+   (names are UTF-8 dotted strings, hex encoded; serialize_ast.UndoModuleAliasesVisitor.VisitLateType) -/
+def strOfHex (h : String) : String :=
+  match String.fromUTF8? (ByteArray.mk ((unhex h).map (fun n => n.toUInt8)).toArray) with
+  | some s => s
+  | none => ""
+
+def dotted (s : String) : Dotted := s.splitOn "."
+
+def runUndo (toks : Array String) : String :=
+  match toks[1]?.bind String.toNat? with
+  | none => "bad-op"
+  | some k =>
+    if toks.size != 2 * k + 3 then "bad-op"
+    else
+      let al := (List.range k).map fun i =>
+        (dotted (strOfHex (toks.getD (2 + 2 * i) "")), dotted (strOfHex (toks.getD (3 + 2 * i) "")))
+      let name := dotted (strOfHex (toks.getD (2 * k + 2) ""))
+      let r := ".".intercalate (undoAlias al name)
+      hexOf (r.toUTF8.toList.map (·.toNat)) ++ " " ++ String.singleton (bit (noChain al))
+
 def stepC12 (pool : Array Val) (line : String) : Array Val × Option String :=
   let toks := (line.splitOn " ").toArray
   match toks[0]? with
@@ -128,6 +150,7 @@ def stepC12 (pool : Array Val) (line : String) : Array Val × Option String :=
     let ids := classIds (pool.map (vhash strHash σ))
     (pool, some (" ".intercalate (ids.toList.map toString)))
   | some "eqok" => (pool, some (String.ofList (pool.toList.map fun a => bit (eqOK σ a))))
+  | some "undo" => (pool, some (runUndo toks))
   | _ => (pool, some "bad-op")
 
 def main : IO Unit := Driver.run #[] stepC12
